@@ -19,7 +19,7 @@ import subprocess
 from pathlib import Path
 
 from .. import core
-from ..gen_constructs import gen_file
+from ..gen_constructs import gen_file, zoo_file
 
 PROP = "C11"
 LEVEL_NOTE = ("theorems hold for every list of files and every behaviour of every rule (returns or raises); that no rule raises on a given input is a "
@@ -39,6 +39,7 @@ def healthy_project(rng):
     for i, lang in enumerate(["py", "ts", "rs"]):
         text, _pl, _meta = gen_file(rng, lang, f"h{i}x", n_units=rng.randint(3, 5), layout=False)
         files[f"src/ok_{i}.{lang}"] = text.encode("utf-8")
+        files[f"src/zoo.{lang}"] = zoo_file(lang).encode("utf-8")          # every language-feature unit: the analyzers must get through valid modern syntax
     return files
 
 
@@ -312,8 +313,12 @@ def run(tier: str, seed: int, st: core.ProofStatus) -> core.Result:
             res.bump("command", cmd)
             base, w = runs["baseline"], runs["with"]
             if base["exit"] not in (0, 1) or base["fails"] or base["violations"] is None:
-                res.disagreements.append(core.Disagreement(case=case, impl=base, model=None, spec=None, property_fails=False,
-                                                           note=f"{cmd}: the healthy project alone does not lint cleanly (exit {base['exit']}, {len(base['fails'])} failures)"))
+                # a rule that abandons a valid file, or a run that does not end with 0/1 on valid files, is itself a violation
+                res.disagreements.append(core.Disagreement(case=case, impl={"exit": base["exit"], "fails": base["fails"][:5], "err": base["err"][-300:]}, model=None,
+                                                           spec="exit 0/1 and no abandoned analysis on valid files",
+                                                           property_fails=bool(base["fails"]) or base["exit"] not in (0, 1),
+                                                           note=f"{cmd}: the healthy project alone does not lint cleanly (exit {base['exit']}, {len(base['fails'])} failures"
+                                                                + (f", e.g. {base['fails'][0]['rule']} on {Path(base['fails'][0]['file']).name}: {base['fails'][0]['exc_type']}" if base["fails"] else "") + ")"))
                 continue
             problems = []
             if w["timeout"]:
